@@ -251,9 +251,9 @@ class StereoCondensedReactionGraph(StereoMolGraph, CondensedReactionGraph):
                      defaults to True
         :return: Returns the relabeled graph or None if copy is False
         """
-        relabeled_scrg = self.__class__(
-            super().relabel_atoms(mapping, copy=copy)
-        )
+        # for copy=False this is self (its change tables are still the old
+        # ones and are read below before they are replaced)
+        relabeled_scrg = super().relabel_atoms(mapping, copy=copy)
 
         atom_stereo_change: defaultdict[AtomId, ChangeDict[AtomStereo]] = (
             defaultdict(ChangeDict[AtomStereo])
@@ -269,7 +269,9 @@ class StereoCondensedReactionGraph(StereoMolGraph, CondensedReactionGraph):
                     ),
                     atom_stereo.parity,
                 )
-                atom_stereo_change[mapping[atom]][stereo_change] = new_stereo
+                atom_stereo_change[mapping.get(atom, atom)][
+                    stereo_change
+                ] = new_stereo
 
         bond_stereo_change: defaultdict[Bond, ChangeDict[BondStereo]] = (
             defaultdict(ChangeDict[BondStereo])
@@ -279,7 +281,7 @@ class StereoCondensedReactionGraph(StereoMolGraph, CondensedReactionGraph):
             for stereo_change, bond_stereo in stereo_change_dict.items():
                 if bond_stereo is None:
                     continue
-                new_bond = Bond(mapping[a] for a in bond)
+                new_bond = Bond(mapping.get(a, a) for a in bond)
                 new_stereo = bond_stereo.__class__(
                     tuple(
                         mapping.get(atom, atom) for atom in bond_stereo.atoms
@@ -288,12 +290,8 @@ class StereoCondensedReactionGraph(StereoMolGraph, CondensedReactionGraph):
                 )
                 bond_stereo_change[new_bond][stereo_change] = new_stereo
 
-        if copy is True:
-            relabeled_scrg._atom_stereo_change = atom_stereo_change
-            relabeled_scrg._bond_stereo_change = bond_stereo_change
-        else:
-            self._atom_stereo_change = atom_stereo_change
-            self._bond_stereo_change = bond_stereo_change
+        relabeled_scrg._atom_stereo_change = dict(atom_stereo_change)
+        relabeled_scrg._bond_stereo_change = dict(bond_stereo_change)
 
         return relabeled_scrg
 
